@@ -281,5 +281,5 @@ def _worker(ctx, arg):
 
 
 def run(ctx):
-    per = 250 if ctx.tier == "quick" else 2500
+    per = 250 if ctx.tier == "quick" else 6000
     ctx.parallel(_worker, [(k, per) for k in range(core.NPROC)])
